@@ -155,6 +155,8 @@ class NativeMemoryInstance(MemoryInstance):
         """
         max_size = self.max_size
         old_size = self.size()
+        # The amount is an unsigned i32 which arrives as a signed value:
+        amount &= 0xFFFFFFFF
         new_size = old_size + amount
 
         # Keep memory within sensible bounds:
